@@ -509,6 +509,14 @@ func (e *Engine) invokeTargets(c *ssa.CallCommon) ([]*ssa.Function, bool) {
 			continue
 		}
 		if f := e.Prog.MethodValue(sel); f != nil {
+			if f.Synthetic != "" {
+				// wrapper of a method declared with a value receiver (or promoted): analyse the declared method
+				if tf, ok := sel.Obj().(*types.Func); ok {
+					if decl := e.Prog.FuncValue(tf); decl != nil && decl.Blocks != nil {
+						f = decl
+					}
+				}
+			}
 			out = append(out, f)
 		}
 	}
